@@ -51,10 +51,12 @@ TOLERANCES = {
 CHEMS = ('Water', 'Ethanol', 'Methanol')
 COMPS = [(1., 0., 0.), (1., 2.5, 0.375), (0., 0., 1.), (1000., 0., 1e-3), (0.375, 1., 2.5), (0., 2.5, 0.)]
 TEMPLATES = [('l', 280.), ('l', 298.15), ('l', 330.), ('l', 345.), ('g', 380.), ('g', 420.), ('g', 480.)]
+TEMPLATES_X = TEMPLATES + [('m', 345.), ('m', 380.)]     # thorough: mixed-phase (g + l, both holding material) inlets as well
 PRESSURES = [1e4, 101325., 1e6, 1e7]
 QS = [0., 1e3, -1e3, 1e5]
 RECEIVERS = ['single-l', 'single-g', 'multi']
 TGRID = [250., 280., 298.15, 330., 345., 380., 420., 480., 500.]
+TGRID_X = TGRID + [275., 300., 325., 350., 375., 400., 425., 450., 475.]      # thorough: 25 K steps in addition (appended: indices of TGRID keep their meaning)
 # core sub-alphabets (quick: full product over these)
 CORE_TPL = [1, 3, 5]            # l 298.15, l 345, g 420
 CORE_P = [1, 2]
@@ -431,6 +433,7 @@ class MixGrid(System):
     # an inlet is (tpl index, P index, comp index)
     def _points(self, tier, seed):
         nT, nP, nC, nQ = len(TEMPLATES), len(PRESSURES), len(COMPS), len(QS)
+        nTx = len(TEMPLATES_X)
         pts = set()
         inl_all = list(itertools.product(range(nT), range(nP), range(nC)))
         inl_core = list(itertools.product(CORE_TPL, CORE_P, CORE_COMP))
@@ -454,11 +457,22 @@ class MixGrid(System):
                     pts.add((p[0], p[1], ((p[2], p[3], p[4]), (p[5], p[6], p[7])), p[8]))
             kdev3 = 2
         else:
+            # n <= 2: full product over liquid, gas AND mixed-phase inlets x all P x all compositions x all Q
+            inl_x = list(itertools.product(range(nTx), range(nP), range(nC)))
             for rk in range(3):
                 for ex in (0, 1):
-                    for i1 in inl_all:
-                        for i2 in inl_all:
+                    for i1 in inl_x:
+                        for q in range(nQ): pts.add((rk, ex, (i1,), q))
+                        for i2 in inl_x:
                             for q in range(nQ): pts.add((rk, ex, (i1, i2), q))
+            # n = 3: full product over a reduced menu (l 298.15, l 345, g 420, g 480) x (101325, 1e6) x 3 compositions x all Q
+            inl_m = list(itertools.product([1, 3, 5, 6], CORE_P, CORE_COMP))
+            for rk in range(3):
+                for ex in (0, 1):
+                    for i1 in inl_m:
+                        for i2 in inl_m:
+                            for i3 in inl_m:
+                                for q in range(nQ): pts.add((rk, ex, (i1, i2, i3), q))
             kdev3 = 3
         # n = 3: fixed base points (not rotated by the seed), so that quick (<= 2 deviations) is a subset of thorough (<= 3 deviations)
         # whatever seeds the two tiers are run with; the n = 2 bases may rotate because thorough holds the full n = 2 product
@@ -497,7 +511,8 @@ class MixGrid(System):
     @staticmethod
     def _inlet(i):
         t, p, c = i
-        ph, T = TEMPLATES[t]
+        ph, T = TEMPLATES_X[t]
+        if ph == 'm': return mk_multi(T, PRESSURES[p], COMPS[c], COMPS[c][::-1])
         return mk_single(ph, T, PRESSURES[p], COMPS[c])
 
     def step(self, st, a):
@@ -614,9 +629,10 @@ class SetterGrid(System):
         set_pkg('ideal'); return dict(config=config, done=False)
     def actions(self, st):
         if st['done']: return []
-        acts = [(i, j, 0) for i in range(len(TGRID)) for j in range(len(TGRID))]
+        nT = len(TGRID) if self._sub is not None else len(TGRID_X)
+        acts = [(i, j, 0) for i in range(nT) for j in range(nT)]
         # read / mutate / assign sequences: the state is moved by something other than the setter before the assignment
-        sub = self._sub if self._sub is not None else range(len(TGRID))
+        sub = self._sub if self._sub is not None else range(nT)
         acts += [(i, j, k) for k in range(1, len(PREPS)) for i in sub for j in sub]
         return acts
     def canon(self, st): return (st['config'], st.get('last'))
@@ -624,8 +640,8 @@ class SetterGrid(System):
     def step(self, st, a):
         kind, p, c, attr = st['config']
         prep = PREPS[a[2]] if len(a) > 2 else 'fresh'
-        s, v = prepared(kind, TGRID[a[0]], TGRID[a[1]], PRESSURES[p], COMPS[c], attr, prep)
-        obs = check_set(s, attr, TGRID[a[1]], target=v, prep=prep)
+        s, v = prepared(kind, TGRID_X[a[0]], TGRID_X[a[1]], PRESSURES[p], COMPS[c], attr, prep)
+        obs = check_set(s, attr, TGRID_X[a[1]], target=v, prep=prep)
         if not free_energy_args_clean():
             raise Violation('scratch-left', 'mixture._free_energy_args not empty after the setter')
         st['done'] = True; st['last'] = (a, obs)
@@ -662,49 +678,73 @@ class History(System):
         k = seed % len(cf)
         return cf[k:] + cf[:k]
 
+    def _temps(self, config):
+        """(targets of set H|S, value of `T =`, detour temperature of restore) -- chosen per package / phase region"""
+        if self.pkg == 'ideal': return (300., 400.), 350., 330.
+        if config[0] == 'L': return (310., 335.), 320., 325.          # EOS, clearly liquid region
+        return (400., 460.), 430., 450.                                # EOS, clearly gaseous region
+
     def build(self, config):
         set_pkg(self.pkg)
         fea = getattr(_thermo().mixture, '_free_energy_args', None)
         if fea is not None: fea.clear()          # the shared mixture object is hidden state: owned (emptied) at build, part of canon
-        ka, kb = config
+        ka, kb = config[0], config[1]
         T0 = {'l': 298.15, 'g': 420., 'm': 345.}
-        a = mk_template(ka, T0[ka], 101325., (1., 2.5, 0.375))
         if self.pkg == 'ideal':
+            a = mk_template(ka, T0[ka], 101325., (1., 2.5, 0.375))
             b = mk_template(kb, T0[kb] + (20. if ka == kb else 0.), 1e6, (0.375, 0., 1.))
+        elif ka == 'L':
+            # EOS package, both streams clearly liquid (sub-cooled at their pressure): the cubic keeps its liquid root over the whole
+            # range the actions can reach, so H(T) is continuous
+            a = mk_template('l', 298.15, 101325., (1., 2.5, 0.375))
+            b = mk_template('l', 330., 2e5, (0.375, 0., 1.) if kb == 'L' else (1., 0., 0.375))
         else:
+            a = mk_template(ka, T0[ka], 101325., (1., 2.5, 0.375))
             b = mk_template({'h': 'g'}.get(kb, kb), {'g': 440., 'h': 480., 'mg': 460.}[kb], 2e5, (0.375, 0., 1.) if kb != 'h' else (1., 0., 0.375))
-        return dict(s=[a, b], last=None)
+        S = [a, b]
+        if len(config) > 2:        # third stream
+            kc = config[2]
+            S.append(mk_template(kc, T0[kc] + 40., 5e5, (0., 2.5, 0.)))
+        return dict(s=S, last=None, config=tuple(config))
 
     def canon(self, st):
         ids = {}
-        return (self.pkg, fx.stream_digest(st['s'][0], ids), fx.stream_digest(st['s'][1], ids), scratch_digest())
+        return (self.pkg,) + tuple(fx.stream_digest(x, ids) for x in st['s']) + (scratch_digest(),)
 
     def actions(self, st):
         S = st['s']
         sn = [Snap(x) for x in S]
         acts = []
         rich = self.rich
-        for r in (0, 1):
-            o = 1 - r
-            if rich:
-                for srcs in ((r, o), (o,), (o, o)):
-                    for Q in (0., 1e3):
-                        acts.append(('mix', r, srcs, Q))
-            else:
-                acts.append(('mix', r, (r, o), 1e3)); acts.append(('mix', r, (o,), 0.)); acts.append(('mix', r, (o, o), -1e3))
-            # separate_out: other <= receiver per chemical, remainder non-empty, both non-empty
-            if sn[o].total > 0 and np.all(sn[o].mol <= sn[r].mol) and (sn[r].mol - sn[o].mol).sum() > 0:
-                # a multi-phase receiver gives the part up phase by phase: the part must be contained in each phase
-                if sn[r].cls == 'Stream' or all(p in sn[r].flows and np.all(f <= sn[r].flows[p]) for p, f in sn[o].flows.items() if f.any()):
-                    acts.append(('sep', r, o))
+        Tset, TsetT, Trest = self._temps(st.get('config') or ('l', 'l'))
+        n = len(S)
+        for r in range(n):
+            others = [o for o in range(n) if o != r]
+            for o in others:
+                if rich:
+                    for srcs in ((r, o), (o,), (o, o)):
+                        for Q in (0., 1e3):
+                            acts.append(('mix', r, srcs, Q))
+                elif n == 2:
+                    acts.append(('mix', r, (r, o), 1e3)); acts.append(('mix', r, (o,), 0.)); acts.append(('mix', r, (o, o), -1e3))
+                else:
+                    acts.append(('mix', r, (r, o), 1e3)); acts.append(('mix', r, (o,), 0.))
+                # separate_out: other <= receiver per chemical, remainder non-empty, both non-empty
+                if sn[o].total > 0 and np.all(sn[o].mol <= sn[r].mol) and (sn[r].mol - sn[o].mol).sum() > 0:
+                    # a multi-phase receiver gives the part up phase by phase: the part must be contained in each phase
+                    if sn[r].cls == 'Stream' or all(p in sn[r].flows and np.all(f <= sn[r].flows[p]) for p, f in sn[o].flows.items() if f.any()):
+                        acts.append(('sep', r, o))
+            if n == 3:
+                acts.append(('mix', r, tuple(others), -1e3))          # both other streams into r
+                if rich: acts.append(('mix', r, (r,) + tuple(others), 0.))
             if sn[r].total > 0 and rich:
                 for at in ('H', 'S'):
-                    for Ts in self.Tset:
+                    for Ts in Tset:
                         acts.append(('set', r, at, Ts))
-                acts.append(('setT', r, self.TsetT))
+                acts.append(('setT', r, TsetT))
                 if 250. <= sn[r].T <= 500.:          # the value to restore must belong to a temperature inside the stated range
                     for at in ('H', 'S'):
-                        acts.append(('restore', r, at, self.Trest))
+                        acts.append(('restore', r, at, Trest))
                 for k in (0.5, 2.):
                     acts.append(('scale', r, k))
             elif sn[r].total > 0:
@@ -769,8 +809,91 @@ class History(System):
         return repr((a[0], obs))
 
 
+# =========================================================================================================================================
+class MixVLE(System):
+    """the vapour-liquid-equilibrium path of `Stream.mix_from` (vle=True) on a multi-phase receiver: with the energy balance on the
+    receiver is flashed at (H = sum H_in + Q, P = min P); with it off at (T of the receiver, P = min P)."""
+    name = 'c02.mixvle'
+    MENU_T = [0, 1, 2, 3, 4, 5, 6]       # every liquid and gas template
+    MENU_P = [1, 2]
+    MENU_C = [0, 1, 2, 4]
+
+    def warm(self): _warm()
+    def reset_globals(self): fx.reset_globals(_thermo('ideal'))
+    def depth(self, tier): return 1
+
+    def configs(self, tier, seed):
+        self._tier = tier
+        if tier == 'quick': inl = [(1, 1, 1), (3, 1, 0), (5, 1, 1), (4, 2, 2)]
+        else: inl = list(itertools.product(self.MENU_T, self.MENU_P, self.MENU_C))
+        self._inl = inl
+        cf = [(i1, eb) for i1 in inl for eb in (True, False)]
+        k = seed % len(cf)
+        return cf[k:] + cf[:k]
+
+    _inl = [(1, 1, 1), (3, 1, 0), (5, 1, 1), (4, 2, 2)]
+    def build(self, config):
+        set_pkg('ideal'); return dict(config=config, last=None)
+    def canon(self, st): return (st['config'], st['last'])
+    def actions(self, st):
+        if st['last'] is not None: return []
+        Qs = (0., 1e3) if st['config'][1] else (0.,)
+        return [(i2, Q) for i2 in self._inl for Q in Qs]
+
+    def step(self, st, a):
+        set_pkg('ideal')
+        i1, eb = st['config']; i2, Q = a
+        A, B = MixGrid._inlet(i1), MixGrid._inlet(tuple(i2))
+        r = mk_receiver('multi')
+        before = [Snap(A), Snap(B)]
+        H_in = [H_ref(b) for b in before]
+        T_recv = float(r.T)
+        m = dict(energy_balance=bool(eb), Q_nonzero=bool(Q))
+        try:
+            r.mix_from([A, B], energy_balance=bool(eb), vle=True, Q=Q)
+        except UNDOCUMENTED as e:
+            raise Violation('unexpected-exception', f'mix_from(vle=True) raised {type(e).__name__}: {e}', match=dict(m, op='mixvle', exc=type(e).__name__),
+                            detail=dict(inlets=[b.jsonable() for b in before], Q=Q))
+        except Exception as e:
+            raise Rejected(f'mixvle:{type(e).__name__}', cut=True)
+        after = Snap(r)
+        mol_in = before[0].mol + before[1].mol
+        if not np.allclose(after.mol, mol_in, rtol=1e-9, atol=1e-12 * mol_in.sum()):
+            raise Violation('flows', f'vle mix: receiver flows {after.mol.tolist()} != summed inlets {mol_in.tolist()}', match=m)
+        Pmin = min(b.P for b in before)
+        if after.P != Pmin:
+            raise Violation('P-min', f'vle mix: P_out={after.P} but the lowest inlet pressure is {Pmin}', match=m)
+        two = len(after.phases_present()) > 1
+        if eb:
+            expected = sum(H_in) + Q
+            H_out = H_ref(after); C_out = C_ref(after)
+            F_mass = float(r.F_mass)
+            tol = 1e-6 * F_mass + 10. * abs(C_out) * T_TOL + 1e-9 * (abs(H_in[0]) + abs(H_in[1]))
+            if not (abs(H_out - expected) <= tol):
+                raise Violation('H-balance-vle', f'vle mix: H_out - (sum H_in + Q) = {H_out - expected:.6g} kJ/hr (tol {tol:.3g}); T_out={after.T:.4f}, '
+                                f'phases {after.phases_present()}', match=m, residual=abs(H_out - expected),
+                                detail=dict(inlets=[b.jsonable() for b in before], Q=Q, after=after.jsonable()))
+            read = float(r.H)
+            if not (abs(read - H_out) <= 1e-9 * max(abs(H_out), abs(C_out)) + 1e-9):
+                raise Violation('H-read-vs-state', f'receiver.H reads {read:.9g} but the enthalpy of its state is {H_out:.9g}', match=m, residual=abs(read - H_out))
+        else:
+            if after.T != T_recv:
+                raise Violation('T-kept', f'vle mix without energy balance moved T from {T_recv} to {after.T}', match=m)
+        obs = ('mixvle', bool(eb), after.cls, after.phases_present(), two)
+        st['last'] = (a, obs)
+        return obs
+
+    def nontrivial(self, st, a, obs): return obs[4]
+    def outcome(self, st, a, obs): return repr(obs)
+
+
 SYSTEMS = [MixGrid(), SepGrid(), SetterGrid(), History('c02.history', 3, 3), History('c02.history.deep', 2, 4, rich=False),
            # configuration axis "mixture model": the same two-stream histories on a Peng-Robinson EOSMixture package, whose solver scratch
            # (`mixture._free_energy_args`, shared by every stream of the package) is real hidden state: S / H assignments on one stream are
            # interleaved with H reads, mixing, separation and H assignment on the other
-           History('c02.history.eos', 2, 3, pkg='PR', kinds=[('g', 'g'), ('g', 'h'), ('g', 'mg')])]
+           History('c02.history.eos', 2, 3, pkg='PR', kinds=[('g', 'g'), ('g', 'h'), ('g', 'mg')]),
+           # thorough-weighted extensions: the EOS package in the clearly liquid region, and a universe of THREE streams (reduced alphabet)
+           History('c02.history.eos.liq', 1, 3, pkg='PR', kinds=[('L', 'L'), ('L', 'W')]),
+           History('c02.history.three', 2, 4, rich=False, kinds=[('l', 'g', 'l'), ('l', 'm', 'g')]),
+           History('c02.history.five', 1, 5, rich=False, kinds=[('l', 'g'), ('l', 'm')]),
+           MixVLE()]
